@@ -67,6 +67,15 @@ def c19_class(case, obs):
     return {"kind": case.get("kind", "?"), "scenario": "retry", "script_len": 0 if sc == "-" else len(sc), "max": case.get("max", "?"),
             "first": obs.get("res", obs.get("crash", "?")), "attempts": obs.get("att", "?")}
 
+def c17_class(case, obs):
+    lim = case.get("limit", "-")
+    try:
+        fl = int(case.get("flen", "0"), 16); l = None if lim == "-" else int(lim, 16)
+    except ValueError:
+        fl, l = 0, None
+    rel = "no-limit" if l is None else ("flen<=limit-2" if fl <= l - 2 else ("limit-1" if fl == l - 1 else ("at-limit" if fl == l else ("limit+1" if fl == l + 1 else "over"))))
+    return {"path": case.get("path", "?"), "limit": lim, "relation": rel, "sent": obs.get("sent", obs.get("crash", "?")).split(":")[0]}
+
 PROPS = {
     "C01": {
         "harness": "c01", "driver": "c01", "shards": 16,
@@ -110,6 +119,13 @@ PROPS = {
         "classify": c19_class,
         "nontrivial": lambda cls: cls["scenario"] == "broadcast-tags" or cls.get("script_len", 0) >= 1,
         "rule": "cases = every per-attempt behaviour script of length <= min(max+1,3) (quick; at most one silent attempt) / <= max+2 (thorough) over {refused, accepted-then-closed, closed-while-idle, silent, malformed reply, application error, success} for max_attempts 1..3, blocking and async fleet, each followed by len+2 calls during which the node turns healthy; the fleet.attempt probe switches the scripted node synchronously before every attempt; plus tag-subset broadcasts over up to 3 nodes x 3 tags; distinct = distinct scenario; non-trivial = non-empty script or a tag broadcast",
+        "timeout_s": {"quick": 900, "thorough": 3400},
+    },
+    "C17": {
+        "harness": "c17", "driver": "c17", "shards": 2, "harness_shards": 8,
+        "classify": c17_class,
+        "nontrivial": lambda cls: cls["limit"] != "-",
+        "rule": "cases = for each assumed peer frame limit in {1 KiB, 4 KiB, 64 KiB, 1 MiB, (16 MiB thorough), none} and each of the 7 outbound paths (inline response, off-reader response, handler-pushed notify, registry broadcast, proxy-forwarded response, client request, client notify): frame sizes limit-2..limit+2 plus random sizes up to twice the limit, each on a fresh live WebSocket server / proxy / client with a raw tungstenite peer recording message sizes, the on_error hook counted, and a follow-up exchange for liveness; distinct = distinct case; non-trivial = a limit is configured",
         "timeout_s": {"quick": 900, "thorough": 3400},
     },
 }
